@@ -33,8 +33,8 @@ CLAIMS["C14"] = dict(
     note="String-literal token text has \\n substituted by the scanner (pinned by lexer_test.go), so text==span is claimed for every other kind. 'Everything between tokens is blanks or comments' is proved at transition level (only whitespace/comment states drop a lexeme, and their lexemes start with a blank or ';'), not as a quantified statement over the dropped bytes; the whitespace/comment-insensitivity corollary is a paper step. Facts hold while no lexer error has been reported (lclean). Assumed: strings.Reader.ReadRune contract (listed in evidence).",
     ref="DESIGN.md section 4 C14")
 CLAIMS["C06"] = dict(
-    text="Proof of the function-level content: the scanner terminates (loop variant) and never panics on any input (eof state unreachable with input left, all index/slice operations in range); TLexer and every combinator closure are panic-free under the transaction invariant; tokenWrapper.Wrap cannot panic (slice bounds of string literals, numeric conversions) under the stated token-shape assumptions; reportError's three slice expressions and two strings.Repeat counts are in range whenever the reported span lies inside the input.",
-    note="Not decided: termination of the mutually recursive grammar functions in parser.go and Go stack exhaustion; the transformer (mk*) type assertions, which depend on the result-list shapes of the grammar; that every error span handed to reportError lies inside the input is proved for scanner spans (C14 span clause) but the propagation through combinator.Error values is not. Assumed preconditions are listed in the evidence (token shape at Wrap, accepted literals convert).",
+    text="Proof of the function-level content: the scanner terminates (loop variant) and never panics on any input (eof state unreachable with input left, all index/slice operations in range); TLexer and every combinator closure are panic-free under the transaction invariant; tokenWrapper.Wrap cannot panic (slice bounds of string literals, numeric conversions) under the stated token-shape assumptions; reportError's three slice expressions and two strings.Repeat counts are in range whenever the reported span lies inside the input; the span of a parser error that stems from the end of input or from a scanner error is proved to be the span the transactional lexer reports, which is proved to lie inside the input (cached positions invariant of TLexer, through the refinement to the abstract lexer).",
+    note="Not decided: termination of the mutually recursive grammar functions in parser.go and Go stack exhaustion; the transformer (mk*) type assertions, which depend on the result-list shapes of the grammar; that every error span handed to reportError lies inside the input is proved for scanner spans (C14 span clause) and for Accept's lexer-error sites, but not for the token-mismatch site (spans of Token values are behind a trusted interface), for errors built in parser.go, nor for the propagation through the other combinators. Assumed preconditions are listed in the evidence (token shape at Wrap, accepted literals convert).",
     ref="DESIGN.md section 4 C06")
 
 
